@@ -360,6 +360,13 @@ func (s *Server) handlePostHalt(w http.ResponseWriter, r *http.Request) {
 		return
 	}
 
+	// Only the primary can hand out the halt lock. A replica would otherwise
+	// lock its own copy and stop applying the primary's changes.
+	if !s.store.IsPrimary() {
+		Error(w, r, fmt.Errorf("cannot acquire halt lock: %w", litefs.ErrReadOnlyReplica), http.StatusServiceUnavailable)
+		return
+	}
+
 	// Ensure database exists before attempting a lock.
 	db, err := s.store.CreateDBIfNotExists(name)
 	if err != nil {
